@@ -35,3 +35,63 @@ fn vfmt_disp<W: VWrite, T: VDisp>(w: &mut W, x: T)
 fn vfmt_lit<W: VWrite>(w: &mut W, x: &str)
     ensures final(w).text() == old(w).text() + x@
 { w.vpush(x) }
+
+// {:02X}: trusted - two upper-case hexadecimal digits, high nibble first (validated natively for all 256 bytes)
+pub open spec fn hexd(n: int) -> char {
+    if n == 0 { '0' } else if n == 1 { '1' } else if n == 2 { '2' } else if n == 3 { '3' } else if n == 4 { '4' }
+    else if n == 5 { '5' } else if n == 6 { '6' } else if n == 7 { '7' } else if n == 8 { '8' } else if n == 9 { '9' }
+    else if n == 10 { 'A' } else if n == 11 { 'B' } else if n == 12 { 'C' } else if n == 13 { 'D' } else if n == 14 { 'E' } else { 'F' }
+}
+pub open spec fn hex2(b: u8) -> Seq<char> { seq![hexd(b as int / 16), hexd(b as int % 16)] }
+#[verifier::external_body]
+fn vfmt_hex2_upper<W: VWrite>(w: &mut W, b: &u8)
+    ensures final(w).text() == old(w).text() + hex2(*b)
+{ let s = format!("{:02X}", b); w.vpush(s.as_str()) }
+// Display of numbers: canonical text, left uninterpreted (no proof depends on its shape)
+pub uninterp spec fn num_text_int(i: int) -> Seq<char>;
+pub uninterp spec fn num_text_f32(f: f32) -> Seq<char>;
+pub uninterp spec fn num_text_f64(f: f64) -> Seq<char>;
+impl VDisp for i8 {
+    open spec fn disp(&self) -> Seq<char> { num_text_int(*self as int) }
+    #[verifier::external_body] fn vdisp(&self) -> (r: String) { format!("{}", self) }
+}
+impl VDisp for i16 {
+    open spec fn disp(&self) -> Seq<char> { num_text_int(*self as int) }
+    #[verifier::external_body] fn vdisp(&self) -> (r: String) { format!("{}", self) }
+}
+impl VDisp for i32 {
+    open spec fn disp(&self) -> Seq<char> { num_text_int(*self as int) }
+    #[verifier::external_body] fn vdisp(&self) -> (r: String) { format!("{}", self) }
+}
+impl VDisp for i64 {
+    open spec fn disp(&self) -> Seq<char> { num_text_int(*self as int) }
+    #[verifier::external_body] fn vdisp(&self) -> (r: String) { format!("{}", self) }
+}
+impl VDisp for u8 {
+    open spec fn disp(&self) -> Seq<char> { num_text_int(*self as int) }
+    #[verifier::external_body] fn vdisp(&self) -> (r: String) { format!("{}", self) }
+}
+impl VDisp for u16 {
+    open spec fn disp(&self) -> Seq<char> { num_text_int(*self as int) }
+    #[verifier::external_body] fn vdisp(&self) -> (r: String) { format!("{}", self) }
+}
+impl VDisp for u32 {
+    open spec fn disp(&self) -> Seq<char> { num_text_int(*self as int) }
+    #[verifier::external_body] fn vdisp(&self) -> (r: String) { format!("{}", self) }
+}
+impl VDisp for u64 {
+    open spec fn disp(&self) -> Seq<char> { num_text_int(*self as int) }
+    #[verifier::external_body] fn vdisp(&self) -> (r: String) { format!("{}", self) }
+}
+impl VDisp for usize {
+    open spec fn disp(&self) -> Seq<char> { num_text_int(*self as int) }
+    #[verifier::external_body] fn vdisp(&self) -> (r: String) { format!("{}", self) }
+}
+impl VDisp for f32 {
+    open spec fn disp(&self) -> Seq<char> { num_text_f32(*self) }
+    #[verifier::external_body] fn vdisp(&self) -> (r: String) { format!("{}", self) }
+}
+impl VDisp for f64 {
+    open spec fn disp(&self) -> Seq<char> { num_text_f64(*self) }
+    #[verifier::external_body] fn vdisp(&self) -> (r: String) { format!("{}", self) }
+}
